@@ -1042,7 +1042,14 @@ fn eval_case(rep: &mut Report, c: &Case, reruns: usize, children: usize, probes_
     }
     // ambient log level (a quarter of the seeds): the same run on a thread where a tracing subscriber listens at every level.
     // What a harness logs is not part of its configuration: trace, state and verdict must not depend on who listens.
-    if c.s % 4 == 1 {
+    // (not for a case the plain relations already show to be irreproducible - two runs on one thread differ, or the preset
+    // built around the listed SPOP/RANDOMKEY hash-order finding: a difference there says nothing about the listener)
+    let unstable = runs[1..].iter().any(|r| first_diff(base, &r.0).is_some()) || c.h.contains("set-pick-script");
+    if unstable && c.s % 4 == 1 {
+        rep.count("ambient_log_level_relation_skipped:case_irreproducible_anyway");
+    }
+    if c.s % 4 == 1 && !unstable {
+        let mut continue_after_ambient = false;
         let (h, p, s, ops) = (c.h.clone(), c.p.clone(), c.s, c.ops);
         let listened = std::thread::Builder::new()
             .stack_size(32 << 20)
@@ -1055,6 +1062,20 @@ fn eval_case(rep: &mut Report, c: &Case, reruns: usize, children: usize, probes_
                 rep.count("runs_with_a_tracing_subscriber_at_every_level");
                 rep.add("bytes_compared", base.len().min(r.0.len()) as u64);
                 if let Some((section, detail)) = first_diff(base, &r.0) {
+                    // control: the same run on another fresh thread with nobody listening. If that differs from the base run as
+                    // well, the subscriber is not what made the difference (the case diverges between any two threads) and it is
+                    // reported under the plain relation.
+                    let (h, p, s, ops) = (c.h.clone(), c.p.clone(), c.s, c.ops);
+                    let control = std::thread::Builder::new().stack_size(32 << 20).spawn(move || dump_text(&h, &p, s, ops)).expect("spawn").join().ok();
+                    if control.as_ref().map_or(true, |k| first_diff(base, &k.0).is_some()) {
+                        if let Some(k) = &control {
+                            report(rep, "fresh-thread", &k.0);
+                        }
+                        continue_after_ambient = true;
+                    }
+                    if continue_after_ambient {
+                        // fallthrough: nothing attributed to the log level
+                    } else {
                     let mut w = c.json();
                     w["relation"] = json!("ambient-log-level");
                     w["section"] = json!(section);
@@ -1063,6 +1084,7 @@ fn eval_case(rep: &mut Report, c: &Case, reruns: usize, children: usize, probes_
                         format!("preset {} seed {} ops {}: the same run differs when a tracing subscriber listens at TRACE level; first differing section `{}`, {}", c.p, c.s, c.ops, section, detail),
                         w,
                     );
+                    }
                 }
             }
             None => rep.inconclusive(format!("runner thread died for the ambient-log-level relation of {:?}", c.json())),
